@@ -340,14 +340,40 @@ func checkCondUse(c *Ctx, m *shimModel, fn *ssa.Function, method string, needLoc
 		n++
 		recv := w.Expr(call.Common().Args[0])
 		want := "p0." + m.fConds + "[p1]"
-		c.Check(recv == want, "R2.cond", fn.Name()+"|"+shortName(method)+" on the entry of the given code", w.Pos(call.Pos()), want, "the condition variable used is not the table entry of the method's code: "+recv)
+		okRecv := recv == want
+		if !okRecv {
+			// handed back by a lookup helper: every non-nil value it can yield here is that entry
+			n := 0
+			okRecv = true
+			for _, lf := range w.Leaves(call.Common().Args[0], call.(ssa.Instruction)) {
+				if isNilConst(strip(lf.Val)) {
+					continue
+				}
+				n++
+				if w.ExprIn(fn, lf.Val) != want {
+					okRecv = false
+				}
+			}
+			okRecv = okRecv && n > 0
+		}
+		condVal := call.Common().Args[0]
+		c.Check(okRecv, "R2.cond", fn.Name()+"|"+shortName(method)+" on the entry of the given code", w.Pos(call.Pos()), want, "the condition variable used is not the table entry of the method's code: "+recv)
 		if needLock {
 			okLock := false
 			for _, lc := range w.callsInDeep(fn) {
 				if _, isDefer := lc.(*ssa.Defer); isDefer {
 					continue
 				}
-				if strings.HasSuffix(calleeName(lc), "sync.Locker).Lock") && w.Expr(lc.Common().Value) == want+".L" {
+				sameCond := func(v ssa.Value) bool {
+					// the L field of the very value Wait is called on
+					ld, ok := strip(v).(*ssa.UnOp)
+					if !ok {
+						return false
+					}
+					fa, ok := ld.X.(*ssa.FieldAddr)
+					return ok && fieldName(fa.X.Type(), fa.Field) == "L" && strip(fa.X) == strip(condVal)
+				}
+				if strings.HasSuffix(calleeName(lc), "sync.Locker).Lock") && (w.Expr(lc.Common().Value) == want+".L" || (okRecv && sameCond(lc.Common().Value))) {
 					if li, ok := lc.(ssa.Instruction); ok && li.Parent() == call.Parent() && InstrDominates(li, call) {
 						// not released before the wait
 						released := false
